@@ -422,3 +422,27 @@ Proof.
   apply (two_stage_NoDup s o false BNames RCables ps os pats res). exact H.
 Qed.
 End Clauses.
+
+(* ---- the hierarchical queries get_hinstances / get_hports / get_hpins / get_hcables / get_hwires:
+        the filter law over whatever references the function finds for its roots (the candidate
+        enumeration of these five is the hier engine's, Hier/*.v). [refs] = the unfiltered result
+        (duplicate-free), [hname] = the hierarchical name the patterns are matched against; nothing is
+        yielded before the patterns are looked at (in_yield = []): since the repair of finding C13-K6
+        this holds for every kind of root and every selection, not only for netlist / instance-reference
+        roots. Result for a pattern = unfiltered result restricted to the matches; no duplicates. ---- *)
+Theorem hier_filters_unfiltered ic ir hname refs pats : NoDup refs ->
+  NoDup (run_hier ic ir hname refs [] pats) /\
+  forall e, In e (run_hier ic ir hname refs [] pats) <->
+            In e (run_hier true false hname refs [] star_pat) /\ existsb (fun p => matches_b ic ir p (hname e)) pats = true.
+Proof.
+  intros Hn. destruct (run_hier_spec ic ir hname refs [] pats Hn) as [Hd Hs]. split; [exact Hd|].
+  destruct (run_hier_spec true false hname refs [] star_pat Hn) as [_ Hu].
+  intro e. rewrite Hs, Hu. unfold star_pat. cbn [existsb]. rewrite star_matches. cbn. tauto.
+Qed.
+
+Theorem hier_unfiltered hname refs : NoDup refs ->
+  forall e, In e (run_hier true false hname refs [] star_pat) <-> In e refs.
+Proof.
+  intros Hn e. destruct (run_hier_spec true false hname refs [] star_pat Hn) as [_ Hu]. rewrite Hu.
+  unfold star_pat. cbn [existsb]. rewrite star_matches. cbn. tauto.
+Qed.
